@@ -1,22 +1,11 @@
 /* C13 helpers.
- * libc: memchr / memrchr / memmem come from /verif/lib/libc_models.h (CBMC-only bodies, real glibc in the replay);
- * the build configuration (-DHAVE_MEMMEM ... = the real cmake/Linux build) comes from the driver.  The only further
- * libc function the C13 units reach without a CBMC model is strnlen (radius_pkt_attr_get_data_ptr): CBMC-only body
- * below, transcribed from the man page (reads at most maxlen bytes, stops at the first NUL). */
+ * libc: memchr / memrchr / memmem / strnlen come from /verif/lib/libc_models.h (CBMC-only bodies, real glibc in the
+ * replay); the build configuration (-DHAVE_MEMMEM ... = the real cmake/Linux build) comes from the driver. */
 #ifndef C13_ENVSTUBS_H
 #define C13_ENVSTUBS_H
 #include <string.h>
 #include <strings.h>
 
-#ifndef REPLAY
-size_t strnlen(const char *s, size_t maxlen) {
-	size_t i = 0;
-	for (; i < maxlen; i++) {
-		if (s[i] == 0) break;
-	}
-	return (i);
-}
-#endif
 
 /* span check: pointer `p`, length `n` inside [base, base+size]; one-past-the-end allowed for an empty span, as for
  * any C array */
